@@ -11,7 +11,7 @@ module D = Driver.Make (struct
   let case_pos = function M.XI q -> `I q | M.XO q -> `O q | M.XH -> `H
   let case_z = function M.Z0 -> `Z0 | M.Zpos p -> `Pos p | M.Zneg p -> `Neg p
 end)
-let table = [ ("C27", M.run_C27) ]
+let table = [ ("C27", M.run_C27); ("C28", M.run_C28) ]
 
 (* The extracted functions are not tail recursive and some cases hold byte strings of
    more than 100 000 elements: re-execute once under a larger stack limit (the limit is
